@@ -59,6 +59,8 @@ fn read_histories(path: &Option<String>) -> Vec<Vec<Value>> {
 }
 
 fn main() {
+    // panics of the code under test are data (caught and logged), not noise
+    std::panic::set_hook(Box::new(|_| {}));
     let args = parse_args();
     let mut tr = Trace::to_file(&args.out).unwrap_or_else(|e| {
         eprintln!("cannot create {}: {e}", args.out);
@@ -136,6 +138,18 @@ fn main() {
                         }
                     }
                 }
+            }
+        }
+        "sanitize" => {
+            let mut sy = mdwh::synth::Synth::new().unwrap_or_else(|e| { eprintln!("{e}"); std::process::exit(2) });
+            for batch in read_histories(&args.input) {
+                for c in &batch {
+                    mdwh::sanitize::run_case(&mut sy, &mdwh::sanitize::from_model(c), &mut tr);
+                }
+            }
+            for _ in 0..args.random {
+                let c = mdwh::sanitize::random_case(&mut rng);
+                mdwh::sanitize::run_case(&mut sy, &c, &mut tr);
             }
         }
         _ => usage(),
